@@ -1019,6 +1019,35 @@ def panic_arms_are_excluded_by_callers(ctx, rid):
                         ok = True
             if ok:
                 continue
+            if g.kind == "Closure" and r0 == 1 and not ok:
+                # the argument is a captured variable: the guard is where the closure is built
+                rest = want[1]
+                if rest[:1] == ("*",):
+                    rest = rest[1:]
+                if rest[:1] and isinstance(rest[0], tuple) and rest[0][0] == "f":
+                    j = rest[0][1]
+                    parent = p.fns.get(g.id.rsplit("::{closure", 1)[0])
+                    if parent is not None and isinstance(j, int):
+                        for bb2, i2, st2 in parent.stmts():
+                            if st2[0] == "=" and st2[2][0] == "agg" and isinstance(st2[2][1], list) and st2[2][1][0] == "closure" \
+                                    and st2[2][1][1] == g.id and j < len(st2[2][2]) and st2[2][2][j][0] != "k":
+                                op = st2[2][2][j]
+                                pr, pp = common._norm_place(parent, op[1][0], op[1][1])
+                                tail = rest[1:]
+                                if pp[-1:] == ("&",) and tail[:1] == ("*",):
+                                    pwant = (pr, pp[:-1] + tail[1:])
+                                elif pp[-1:] == ("&",):
+                                    pwant = (pr, pp[:-1] + tail)
+                                else:
+                                    pwant = (pr, pp + tail)
+                                for key, sb, tg, allv, line, en in ks.get(parent.id, []):
+                                    if key != pwant:
+                                        continue
+                                    for target, vs in tg.items():
+                                        if not (vs & bad) and target is not None and edge_dominates(parent, (sb, target), bb2):
+                                            ok = True
+                if ok:
+                    continue
             if 1 <= r0 <= g.argc and g.kind != "Closure" and depth > 0 and callers.get(g.id):
                 sub = want[1]
                 out += excluded(g, r0, sub, bad, depth - 1, seen)
